@@ -1,4 +1,5 @@
-"""Unit CYC — compiler/semantics/semantic_analyser.cpp: the inheritance-cycle walk of buildClassRegistry (the body
+"""Unit CYC — compiler/semantics/semantic_analyser.cpp: the recursive validateClass lambda (base classes are validated
+before the classes derived from them, C10) and the inheritance-cycle walk of buildClassRegistry (the body
 of `for (auto& [name, info] : m_classes)` that declares `seen`) — C13: the analyser terminates on cyclic class
 hierarchies and answers with one Semantic diagnostic; C16: inheritance cycles are rejected."""
 import re, os
@@ -12,10 +13,11 @@ NAMESPACE = 'bloch::compiler'
 FUNCS = []
 AST_FILTER = ['SemanticAnalyser::buildClassRegistry', 'SemanticAnalyser::findClass']
 SHIM = 'cyc.h'
-THROWING = {'cycle_walk'}
+THROWING = {'cycle_walk', 'validate_class'}
 DROPS = ['region cycle_walk: the statements of the body of the range-for over m_classes that declares `seen` (the structured binding [name, info] becomes two parameters)',
          'class names are small integers, a class is the table entry with the index of its name (0 = no class / empty name); std::unordered_set<std::string> is a flag array indexed by name',
-         'findClass is modelled on the same table (checked to be the plain map lookup it is modelled as)']
+         'findClass is modelled on the same table (checked to be the plain map lookup it is modelled as)',
+         'region validate_class: the body of the recursive local lambda `validateClass` of buildClassRegistry; the captured set `validated` is a file-level flag array; m_classes.find(name) is the table lookup; validateOverrides / validateAbstractness are one ghost-recording model (they may raise a Semantic error); the recursive call is a contract-only copy carrying the contract being proved (induction on the depth of the recursion; that it ends is the acyclicity established by cycle_walk, not re-proved here)']
 ASSUMPTIONS = ['KNAMES = 8 distinct names (object-size bound): the walk is proved to end within KNAMES steps for every table, cyclic or not']
 
 
@@ -29,11 +31,15 @@ class Profile(Lower):
         (r'^(bloch::compiler::)?(SemanticAnalyser::)?ClassInfo \*$', 'bl_cls'),
         (r'^(bloch::compiler::)?(SemanticAnalyser::)?ClassInfo$', 'bl_cls'),
         (r'^std::unordered_set<std::(basic_string<char.*>|string).*>$', 'bl_nameset'),
+        (r'^std::unordered_map<std::(basic_string<char.*>|string), (bloch::compiler::)?(SemanticAnalyser::)?ClassInfo.*>::iterator$', 'bl_cls'),
+        (r'^std::__detail::_Node_iterator(_base)?<std::pair<(const )?std::(basic_string<char.*>|string), (bloch::compiler::)?(SemanticAnalyser::)?ClassInfo>.*$', 'bl_cls'),
     ]
 
     def member(self, n):
         base = kids(n)[0]
         sb = strip(base)
+        if n['name'] == 'second' and sb.get('kind') == 'CXXOperatorCallExpr' and callee_name(kids(sb)[0]) == 'operator->' and self.ct(kids(sb)[1]) == 'bl_cls':
+            return self.expr(kids(sb)[1])         # it->second : the table entry the iterator stands for
         if self.ct(sb) == 'bl_cls' and n['name'] in ('base', 'line', 'column'):
             return 'g_ci[BL_IDX(%s, KNAMES)].%s' % (self.expr(sb), n['name'])
         raise Unsupported('member %s of %s' % (n['name'], qt(sb)))
@@ -58,6 +64,13 @@ class Profile(Lower):
         so = strip(obj)
         if so.get('kind') == 'CXXThisExpr' and name == 'findClass' and len(args) == 1:
             return 'cyc_findClass(%s)' % self.expr(args[0])
+        if so.get('kind') == 'CXXThisExpr' and name in ('validateOverrides', 'validateAbstractness') and len(args) == 1:
+            self.needs_prop = True
+            return 'cyc_validate_event(%s)' % self.expr(args[0])
+        if so.get('kind') == 'MemberExpr' and so.get('name') == 'm_classes' and name == 'find' and len(args) == 1:
+            return 'cyc_findClass(%s)' % self.expr(args[0])
+        if so.get('kind') == 'MemberExpr' and so.get('name') == 'm_classes' and name == 'end' and not args:
+            return '((bl_cls)0)'
         t = self.ct(obj)
         o = self.expr(obj)
         if t == 'bl_cname' and name == 'empty':
@@ -80,8 +93,13 @@ class Profile(Lower):
         ks = kids(n)
         op = callee_name(ks[0])
         args = ks[1:]
-        if op in ('operator==', 'operator!=') and self.ct(args[0]) == 'bl_cname':
+        if op in ('operator==', 'operator!=') and self.ct(args[0]) in ('bl_cname', 'bl_cls'):
             return '(%s %s %s)' % (self.expr(args[0]), op[len('operator'):], self.expr(args[1]))
+        if op == 'operator->' and self.ct(args[0]) == 'bl_cls':
+            return self.expr(args[0])
+        if op == 'operator()' and strip_parens(args[0]).get('kind') == 'DeclRefExpr' and strip_parens(args[0])['referencedDecl']['name'] == 'validateClass' and len(args) == 2:
+            self.needs_prop = True
+            return 'cyc_validateClass_rec(%s)' % self.expr(args[1])      # the recursive call: contract-only copy (induction hypothesis)
         raise Unsupported('operator %s on %s' % (op, qt(args[0])))
 
 
@@ -120,10 +138,39 @@ def lower_regions(docs, prof):
         d = dict(kind='FunctionDecl', name='cycle_walk', type=dict(qualType='void ()'), inner=[tgt])
         prof.locals |= {'name', 'info'}
         h2, lines = prof.func(d, cname='cycle_walk', is_method=False)
-        return [(head, lines)]
+        out = [(head, lines)]
     except Unsupported as e:
         prof.region_unlowered = {'cycle_walk': str(e)}
-        return [(head, None)]
+        out = [(head, None)]
+    hv = 'void cyc_validate_class(bl_cname name)'
+    try:
+        ds = cxx2c.find_functions(docs, 'buildClassRegistry')
+        if len(ds) != 1:
+            raise Unsupported('buildClassRegistry: %d definitions' % len(ds))
+        vs = []
+        walk(ds[0], lambda z: vs.append(z) if z.get('kind') == 'VarDecl' and z.get('name') == 'validateClass' else None)
+        if len(vs) != 1:
+            raise Unsupported('local lambda validateClass: %d definitions' % len(vs))
+        lams = []
+        walk(vs[0], lambda z: lams.append(z) if z.get('kind') == 'LambdaExpr' else None)
+        if not lams:
+            raise Unsupported('validateClass is not a lambda')
+        lam = lams[0]
+        rec = [k for k in kids(lam) if k.get('kind') == 'CXXRecordDecl'][0]
+        call = [m for m in kids(rec) if m.get('kind') == 'CXXMethodDecl' and m.get('name') == 'operator()'][0]
+        ps = [pd for pd in kids(call) if pd.get('kind') == 'ParmVarDecl']
+        if [pd.get('name') for pd in ps] != ['name']:
+            raise Unsupported('validateClass parameters changed')
+        lbody = [k for k in kids(lam) if k.get('kind') == 'CompoundStmt'][-1]
+        d = dict(kind='FunctionDecl', name='validate_class', type=dict(qualType='void ()'), inner=[lbody])
+        h3, l3 = prof.func(d, cname='validate_class', is_method=False)
+        out.append((hv, l3))
+    except Unsupported as e:
+        if not hasattr(prof, 'region_unlowered'):
+            prof.region_unlowered = {}
+        prof.region_unlowered['validate_class'] = str(e)
+        out.append((hv, None))
+    return out
 
 
 KNAMESN = 8
@@ -136,6 +183,31 @@ size_t g_steps;                         /* ghost: iterations of the walk */
 static inline bl_cls cyc_findClass(bl_cname n) { return (n > 0 && n < KNAMES && g_ci[n].exists) ? n : 0; }
 #define SEEN_COUNT (""" + ' + '.join('(seen[%d] ? 1 : 0)' % j for j in range(KNAMESN)) + r""")
 #define TABLE_WF (""" + ' && '.join('(g_ci[%d].base >= 0 && g_ci[%d].base < KNAMES)' % (j, j) for j in range(KNAMESN)) + r""")
+"""
+GHOSTS += r"""
+/* ---- region validate_class */
+_Bool validated[KNAMES];               /* the captured std::unordered_set<std::string> validated */
+bl_cname gc, gv;                       /* ghost: one arbitrary class whose validation is observed; one arbitrary name */
+_Bool g_ran_gc, g_base_ok_when_gc_ran;
+#define EXISTS(n) ((n) > 0 && (n) < KNAMES && g_ci[n].exists)
+#define BASE_DONE(c) (g_ci[c].base == 0 || !EXISTS(g_ci[c].base) || validated[g_ci[c].base])
+#ifndef NATIVE
+_Bool nondet_bool(void);
+/* validateOverrides(info) / validateAbstractness(info): what they compute about `info` relies on the same facts about its base class being complete */
+static inline void cyc_validate_event(bl_cls c) {
+  if (c == gc && !g_ran_gc) { g_ran_gc = 1; g_base_ok_when_gc_ran = BASE_DONE(gc); }
+  if (nondet_bool()) { bl_throw(BL_Semantic, g_ci[BL_IDX(c, KNAMES)].line, g_ci[BL_IDX(c, KNAMES)].column); }
+}
+#define VC_PRE (TABLE_WF && gc >= 1 && gc < KNAMES && gv >= 0 && gv < KNAMES && (g_ran_gc ==> g_base_ok_when_gc_ran))
+void cyc_validateClass_rec(bl_cname name)
+__CPROVER_requires(bl_exc == 0 && name >= 0 && name < KNAMES && VC_PRE)
+__CPROVER_assigns(__CPROVER_object_whole(validated), g_ran_gc, g_base_ok_when_gc_ran, bl_exc, bl_exc_line, bl_exc_col)
+__CPROVER_ensures(bl_exc == 0 || bl_exc == EXC_SEM)
+__CPROVER_ensures((bl_exc == 0 && EXISTS(name)) ==> validated[name])
+__CPROVER_ensures(__CPROVER_old(validated[gv]) ==> validated[gv])
+__CPROVER_ensures(g_ran_gc ==> g_base_ok_when_gc_ran)
+;
+#endif
 """
 RET = '__CPROVER_return_value'
 
@@ -183,7 +255,21 @@ GHOSTS += 'bl_cls cyc_first_base; _Bool seen_base_of_info;\n'
 CONTRACTS['cycle_walk']['loops'][0]['before'] = 'cyc_first_base = cyc_findClass(g_ci[info].base);'
 CONTRACTS['cycle_walk']['loops'][0]['invariants'][6] = ('cycle_walk.loop.second_step', '(g_steps == 1) ==> (cur == cyc_first_base && seen[g_ci[info].base])')
 CONTRACTS['cycle_walk']['contract'][1] = A('bl_exc, bl_exc_line, bl_exc_col, g_steps, cyc_first_base')
+CONTRACTS['validate_class'] = {
+    'contract': [
+        R('bl_exc == 0 && name >= 0 && name < KNAMES && VC_PRE'),
+        A('__CPROVER_object_whole(validated), g_ran_gc, g_base_ok_when_gc_ran, bl_exc, bl_exc_line, bl_exc_col'),
+        E('buildClassRegistry.validate_class.only_semantic_errors', 'bl_exc == 0 || bl_exc == EXC_SEM', ['C13']),
+        E('buildClassRegistry.validate_class.the_class_ends_up_validated', '(bl_exc == 0 && EXISTS(name)) ==> validated[name]', ['C10', 'C16']),
+        E('buildClassRegistry.validate_class.validated_classes_stay_validated', '__CPROVER_old(validated[gv]) ==> validated[gv]', ['C10']),
+        # C10: what is decided about a class must not depend on whether its base class was declared (and visited) before it:
+        # the base class is always validated first
+        E('buildClassRegistry.validate_class.base_class_is_validated_before_the_derived_class', 'g_ran_gc ==> g_base_ok_when_gc_ran', ['C10', 'C16']),
+    ],
+}
 HARNESSES = [
+    dict(name='validate_class', fn='validate_class', replace=['cyc_validateClass_rec'], flags=[], props=['C10', 'C16', 'C13', 'C12'], timeout=300, bounded_replace=['cyc_validateClass_rec'],
+         canaries=[('bl_exc == 0 && g_ran_gc', 'the observed class was validated'), ('bl_exc != 0', 'rejected')]),
     dict(name='cycle_walk', fn='cycle_walk', replace=[], flags=[], props=['C13', 'C16', 'C12'], timeout=600, unwind=10,
          canaries=[('bl_exc == 0 && g_steps >= 2', 'a chain of several classes was accepted'), ('bl_exc != 0 && g_steps >= 3', 'a longer cycle was rejected')]),
 ]
